@@ -423,6 +423,14 @@ func (w *world) newProcessor() {
 	mp := sub.Channels.MessagePublicationC
 	w.p = NewProcessor(w.supCtx, w.db, w.lockC, w.setC, w.sendC, w.obsvC, w.reqC, w.injectC, w.signedInC,
 		simSigner{w.own}, gst, ev, nil, govChain, govEmitter)
+	// whatever the runnable sets up when it starts is set up before the handlers are driven directly:
+	// Run is entered once with a context that is already cancelled and returns at once
+	pre, preCancel := context.WithCancel(w.supCtx)
+	preCancel()
+	_ = w.p.Run(pre)
+	if w.p.cleanup != nil {
+		w.p.cleanup.Stop()
+	}
 	w.stopDr = make(chan struct{})
 	stop := w.stopDr
 	sendC := w.sendC
